@@ -2269,14 +2269,20 @@ func (interp *Interpreter) cfg(root *node, sc *scope, importPath, pkgName string
 				} else {
 					body := c.lastChild()
 					if len(c.child) > 1 {
-						cond := c.child[0]
-						cond.tnext = body.start
-						if i == l-1 {
-							setFNext(cond, n)
-						} else {
-							setFNext(cond, clauses[i+1].start)
+						// The clause is taken if one of its conditions, tested in sequence, is true.
+						conds := c.child[:len(c.child)-1]
+						for j, cond := range conds {
+							cond.tnext = body.start
+							switch {
+							case j < len(conds)-1:
+								setFNext(cond, conds[j+1].start)
+							case i == l-1:
+								setFNext(cond, n)
+							default:
+								setFNext(cond, clauses[i+1].start)
+							}
 						}
-						c.start = cond.start
+						c.start = conds[0].start
 					} else {
 						c.start = body.start
 					}
